@@ -9,7 +9,7 @@ import (
 func init() { register("C17", propC17) }
 
 func propC17(c *Ctx) {
-	c.Explanation = "Decides structural necessary conditions of wait-queue notification for all schedules: (Y1) the entry list and every entry's mask are accessed only with Queue.mu held; Notify and Events hold it (read mode) across the whole traversal including the callback calls and EventRegister/EventUnregister hold it in write mode, so no callback runs after an unregistration has returned; (Y2) in Notify the callback of an element is invoked under exactly two conditions - the element is in the list (traversal from Front by Next, no early exit) and mask&e.mask != 0 - and with that element as argument; no other condition (cache, flag) decides it; (Y3) EventRegister stores the mask then pushes the entry at the back in one critical section, EventUnregister removes exactly the given entry; (Y4) the channel callback is a non-blocking select send and NewChannelEntry allocates capacity 1, so a token stays until taken and notification never blocks; (Y5) ilist PushBack/Remove write both link directions and head/tail on the empty/non-empty branches. NOT decided: list shape invariants over histories of operations; exactly-once under concurrent re-registration of one entry."
+	c.Explanation = "Decides structural necessary conditions of wait-queue notification for all schedules: (Y1) the entry list and every entry's mask are accessed only with Queue.mu held; Notify and Events hold it (read mode) across the whole traversal including the callback calls and EventRegister/EventUnregister hold it in write mode, so no callback runs after an unregistration has returned; (Y2) in Notify the callback of an element is invoked under exactly two conditions - the element is in the list (traversal from Front by Next, no early exit) and mask&e.mask != 0 - and with that element as argument; no other condition (cache, flag) decides it; (Y3) EventRegister stores the mask then pushes the entry at the back in one critical section, EventUnregister removes exactly the given entry; (Y4) the channel callback is a non-blocking select send and NewChannelEntry allocates capacity 1, so a token stays until taken and notification never blocks; (Y5) ilist PushBack/Remove write both link directions and head/tail on the empty/non-empty branches. (Y6) package waiter never receives from a channel (closed-world scan incl. helpers): a token left by a completed Notify is taken only by the waiter. NOT decided: list shape invariants over histories of operations; exactly-once under concurrent re-registration of one entry."
 	q := "(*waiter.Queue)."
 	y1 := c.Rule("Y1", "K4 lockset", "list and masks only under Queue.mu; callbacks run under the read lock", 8)
 	la := c.Locks()
@@ -92,6 +92,37 @@ func propC17(c *Ctx) {
 		})
 		c.Check(n == 1, y4, FuncName(fn)+"/makes-channel", c.P.Pos(fn.Pos()), "allocates the channel", "no longer allocates a channel when none is given")
 	}
+
+	// Y6: the token left by a completed notification is taken only by the
+	// waiter. Package waiter itself never receives from a channel: every
+	// channel operation in the package (also in helpers analysed inline) is
+	// the callback's non-blocking send.
+	y6 := c.Rule("Y6", "K3 confinement (closed world over package waiter)", "the queue never consumes a wake-up token: no channel receive in package waiter", 1)
+	nOps := 0
+	for _, fn := range c.P.Funcs {
+		if fn.Pkg == nil || !strings.HasSuffix(fn.Pkg.Pkg.Path(), "/pkg/waiter") {
+			continue
+		}
+		for _, st := range Sites(fn) {
+			switch st.Kind {
+			case "recv":
+				nOps++
+				c.Bad(y6, FuncName(fn)+"/receives-token", c.pos(st.Instr), "package waiter receives from a channel: a token left by a completed Notify can be consumed before the waiter sees it")
+			case "select":
+				nOps++
+				recv := false
+				for _, a := range st.Args {
+					if strings.HasPrefix(a, "recv ") {
+						recv = true
+					}
+				}
+				c.Check(!recv, y6, FuncName(fn)+"/select:"+strings.Join(st.Args, ","), c.pos(st.Instr), "channel operation is a send only", "package waiter receives from an entry's channel: a token left by a completed Notify (possibly for another entry sharing the channel) is consumed by the queue instead of the waiter")
+			case "send":
+				nOps++
+			}
+		}
+	}
+	c.Check(nOps >= 1, y6, "waiter/channel-ops-seen", "pkg/waiter", "the scan sees the callback's channel operation", "no channel operation found in package waiter: the scan is blind")
 
 	y5 := c.Rule("Y5", "K7 site table", "doubly-linked list insert/remove keep both directions", 9)
 	if fn := c.Fn(y5, "(*ilist.List).PushBack"); fn != nil {
